@@ -1,9 +1,28 @@
+import Pendulum.Drv.C01
+import Pendulum.Drv.C02
+import Pendulum.Drv.C03
+import Pendulum.Drv.C04
+import Pendulum.Drv.C05
+import Pendulum.Drv.C06
+import Pendulum.Drv.C07
+import Pendulum.Drv.C08
+import Pendulum.Drv.C09
+import Pendulum.Drv.C10
+import Pendulum.Drv.C11
+import Pendulum.Drv.C12
+import Pendulum.Drv.C13
+import Pendulum.Drv.C14
 import Pendulum.Drv.C15
+import Pendulum.Drv.C16
+import Pendulum.Drv.C17
+import Pendulum.Drv.C18
+import Pendulum.Drv.C19
+import Pendulum.Drv.C20
 /-! stdin line protocol → model → stdout (DESIGN.md Appendix C). One reply per request line. -/
 open Pendulum Pendulum.Drv Pendulum.Zone
 
 def handlers : List (Zones → List String → Option String) :=
-  [C15.handle]
+  [C01.handle, C02.handle, C03.handle, C04.handle, C05.handle, C06.handle, C07.handle, C08.handle, C09.handle, C10.handle, C11.handle, C12.handle, C13.handle, C14.handle, C15.handle, C16.handle, C17.handle, C18.handle, C19.handle, C20.handle]
 
 def dispatch (zs : Zones) (ws : List String) : String :=
   match handlers.findSome? (fun h => h zs ws) with
